@@ -90,10 +90,12 @@ struct Running {
 
 /// Runs all jobs in child processes (`vx job <file>`), at most `par` at a time.
 pub fn run_pool(jobs: &[Job], par: usize, job_timeout: Duration) -> Vec<Result<JobResult, String>> {
-    let exe = std::env::current_exe().expect("current_exe");
     let tmp = PathBuf::from(format!("/dev/shm/vx-pool-{}", std::process::id()));
     let _ = std::fs::remove_dir_all(&tmp);
     std::fs::create_dir_all(&tmp).unwrap();
+    // children run a private copy of this binary: a rebuild during a long run must not mix versions
+    let exe = tmp.join("vx");
+    std::fs::copy(std::env::current_exe().expect("current_exe"), &exe).expect("copy exe");
     let mut results: Vec<Option<Result<JobResult, String>>> = (0..jobs.len()).map(|_| None).collect();
     let mut next = 0usize;
     let mut running: Vec<Running> = Vec::new();
